@@ -39,3 +39,27 @@ func VerifC10CurrentBase(w Wal) int64 {
 	defer t.RUnlock()
 	return t.currentSegment.BaseOffset()
 }
+
+// verifC10FlushSeg lets a scheduler harness observe the start and the end of every Flush of the current
+// segment (what an msync guarantees is the content at its start).
+type verifC10FlushSeg struct {
+	ReadWriteSegment
+	before, after func()
+}
+
+func (s *verifC10FlushSeg) Flush() error {
+	s.before()
+	err := s.ReadWriteSegment.Flush()
+	if err == nil {
+		s.after()
+	}
+	return err
+}
+
+// VerifC10ObserveFlush wraps the WAL's current segment (no rollover is expected afterwards).
+func VerifC10ObserveFlush(w Wal, before, after func()) {
+	t := w.(*wal)
+	t.Lock()
+	defer t.Unlock()
+	t.currentSegment = &verifC10FlushSeg{ReadWriteSegment: t.currentSegment, before: before, after: after}
+}
